@@ -22,6 +22,7 @@ type ownership struct {
 	factory  int
 	err      string
 	nils     int              // nil values the clients themselves returned and that are still in the pool
+	lastNew  bool             // the object the last Get returned had never been seen before
 	foreign  map[uintptr]bool // objects of another type that the clients themselves put into the pool
 }
 
@@ -56,6 +57,7 @@ func (w *ownership) got(holder int, o interface{}, factoryBefore int, counting b
 	}
 	id := objID(o)
 	w.keep = append(w.keep, o)
+	w.lastNew = !w.seen[id]
 	if h, ok := w.held[id]; ok {
 		w.fail("Get handed out an object that holder %d still holds", h)
 		return
@@ -107,6 +109,45 @@ var poolKinds = []poolKind{
 	{"NewSerializerPool", func(size int, w *ownership) hessian.Pool {
 		return hessian.NewSerializerPool(size, map[string]reflect.Type{}, map[string]string{})
 	}, "*hessian.goHessian"},
+	// without caller-supplied maps every object has maps of its own: what one holder registers is not
+	// visible to another holder's fresh object
+	{"NewEncoderPool(nil map)", func(size int, w *ownership) hessian.Pool { return hessian.NewEncoderPool(size, nil) }, "*hessian.Encoder"},
+	{"NewDecoderPool(nil map)", func(size int, w *ownership) hessian.Pool { return hessian.NewDecoderPool(size, nil) }, "*hessian.Decoder"},
+	{"NewSerializerPool(nil maps)", func(size int, w *ownership) hessian.Pool { return hessian.NewSerializerPool(size, nil, nil) }, "*hessian.goHessian"},
+}
+
+var privateSeq int
+
+// privateMaps: for an object that Get just created in a pool built without maps, its name / type map must have
+// the size a freshly constructed instance has; then an entry is registered on it (which must stay private).
+func privateMaps(o interface{}) string {
+	privateSeq++
+	key := fmt.Sprintf("verif.Private%d", privateSeq)
+	var e *hessian.Encoder
+	var d *hessian.Decoder
+	switch x := o.(type) {
+	case *hessian.Encoder:
+		e = x
+	case *hessian.Decoder:
+		d = x
+	case hessian.Serializer:
+		e, d = hessian.VerifSerializerParts(x)
+	}
+	if e != nil {
+		_, _, fresh := hessian.VerifEncoderState(hessian.NewEncoder(nil, nil))
+		if _, _, n := hessian.VerifEncoderState(e); n != fresh {
+			return fmt.Sprintf("an encoder created for an empty pool already has %d name map entries (a fresh one has %d): it shares its map with an object handed out earlier", n, fresh)
+		}
+		e.RegisterNameType(key, "x")
+	}
+	if d != nil {
+		_, _, _, fresh := hessian.VerifDecoderState(hessian.NewDecoder(nil, nil))
+		if _, _, _, n := hessian.VerifDecoderState(d); n != fresh {
+			return fmt.Sprintf("a decoder created for an empty pool already has %d type map entries (a fresh one has %d): it shares its map with an object handed out earlier", n, fresh)
+		}
+		d.RegisterType(key, reflect.TypeOf(0))
+	}
+	return ""
 }
 
 // usable checks that a pooled object works.
@@ -245,6 +286,11 @@ func (s *poolState) apply(op poolOp) string {
 			if idleBefore == 0 {
 				if u := usable(o); u != "" {
 					return "object obtained from an empty pool is not usable: " + u
+				}
+				if strings.Contains(s.kind.name, "nil map") && s.w.lastNew {
+					if u := privateMaps(o); u != "" {
+						return "object obtained from an empty pool is not fresh: " + u
+					}
 				}
 			}
 		}
